@@ -192,9 +192,7 @@ def main(tier):
     for v in sorted(set(v for v, _ in BACKENDS)):
         build.build(v)                      # build in the parent: the workers must only load
     pylib.load_ref()
-    ctx = mp.get_context("spawn")
-    with ctx.Pool(len(BACKENDS)) as pool:
-        outs = pool.map(_backend_worker, [(v, c, S, Pts, ref, kpairs) for v, c in BACKENDS])
+    outs = pylib.pool_map(_backend_worker, [(v, c, S, Pts, ref, kpairs) for v, c in BACKENDS], len(BACKENDS))
     total = 0; tags = []
     for tag, feats, n, fails in outs:
         total += n; tags.append("%s avx=%d sse2=%d" % (tag, feats["avx"], feats["sse2"]))
